@@ -47,26 +47,26 @@ def build(m):
                 'implies(len(p.children) > 0, p.children[len(p.children) - 1].start <= c.start)')
     # c is newer than every token that is already somebody's child
     m.predicate('NEWEST', ['c'], "forall_ref('ParseToken', lambda p: forall(lambda i: p.children[i].rank < c.rank, 0, len(p.children)))")
+    # every existing child is an earlier candidate than c: smaller rank, start not after c's
+    m.predicate('KIDS_BEFORE', ['c'], "forall_ref('ParseToken', lambda p: forall(lambda i: p.children[i].rank < c.rank and p.children[i].start <= c.start, 0, len(p.children)))")
+    m.predicate('KIDS_UPTO', ['c'], "forall_ref('ParseToken', lambda p: forall(lambda i: p.children[i].rank <= c.rank and p.children[i].start <= c.start, 0, len(p.children)))")
     m.predicate('ALL_KIDS_OK', [], "forall_ref('ParseToken', lambda p: KIDS_OK(p) and PT_OK(p))")
     FRAME = "forall_ref('ParseToken', lambda p: implies(p.rank < self.rank, same(p.children, old(p.children))))"
     m.methods[('ParseToken', 'append_child')] = MOD + ':ParseToken.append_child'
     m.add(Contract(MOD + ':ParseToken.append_child', [('self', PT), ('child', PT)],
-                   requires=['ALL_KIDS_OK()', 'RANKED()', 'NEWEST(child)', 'INSIDE_GROUP(self, child)', 'child.rank > self.rank',
-                             "forall_ref('ParseToken', lambda p: LAST_BEFORE(p, child))"],
-                   ensures=['ALL_KIDS_OK()', 'RANKED()', FRAME,
+                   requires=['ALL_KIDS_OK()', 'RANKED()', 'KIDS_BEFORE(child)', 'INSIDE_GROUP(self, child)', 'child.rank > self.rank'],
+                   ensures=['ALL_KIDS_OK()', 'RANKED()', 'KIDS_UPTO(child)', FRAME,
                             'implies(not self.cls.parse_inner, same(self.children, old(self.children)))'],
                    modifies=['F:ParseToken.children'], prop=P,
                    note='recursion through eval_new_child -> last_child.append_child is modular: the '
                         'recursive call is checked against this contract'))
     m.add(Contract(MOD + ':eval_new_child', [('parent', PT), ('child', PT)],
-                   requires=['ALL_KIDS_OK()', 'RANKED()', 'NEWEST(child)', 'len(parent.children) > 0',
-                             'INSIDE_GROUP(parent, child)', 'child.rank > parent.rank',
-                             "forall_ref('ParseToken', lambda p: LAST_BEFORE(p, child))"],
-                   ensures=['ALL_KIDS_OK()', 'RANKED()', FRAME.replace('self', 'parent')],
+                   requires=['ALL_KIDS_OK()', 'RANKED()', 'KIDS_BEFORE(child)', 'len(parent.children) > 0',
+                             'INSIDE_GROUP(parent, child)', 'child.rank > parent.rank'],
+                   ensures=['ALL_KIDS_OK()', 'RANKED()', 'KIDS_UPTO(child)', FRAME.replace('self', 'parent')],
                    modifies=['F:ParseToken.children'], prop=P))
     m.add(Contract(MOD + ':eval_tokens', [('x', PT), ('y', PT), ('token_buffer', TList(PT))], returns=PT,
-                   requires=['ALL_KIDS_OK()', 'RANKED()', 'NEWEST(y)', 'x.start <= y.start', 'y.rank > x.rank',
-                             "forall_ref('ParseToken', lambda p: LAST_BEFORE(p, y))"],
+                   requires=['ALL_KIDS_OK()', 'RANKED()', 'KIDS_BEFORE(y)', 'x.start <= y.start', 'y.rank > x.rank'],
                    ensures=[
                        'implies(x.end <= y.start, result == y and len(new_token_buffer) == len(token_buffer) + 1 '
                        'and new_token_buffer[len(token_buffer)] == x)',
@@ -77,7 +77,7 @@ def build(m):
                        # conflict: higher precedence wins, ties go to the earlier match
                        'implies(not (x.end <= y.start) and not INSIDE_GROUP(x, y) and not (x.parse_end <= y.start and y.end <= x.end), '
                        'result == (x if x.cls.precedence >= y.cls.precedence else y))',
-                       'result == x or result == y', 'ALL_KIDS_OK()', 'RANKED()',
+                       'result == x or result == y', 'ALL_KIDS_OK()', 'RANKED()', 'KIDS_UPTO(y)',
                        FRAME.replace('self', 'x'),
                    ],
                    modifies=['P:token_buffer', 'F:ParseToken.children'], prop=P))
@@ -135,16 +135,19 @@ def build2(m):
     m.namespaces.setdefault('html', {})['_charref'] = ('global', 'html._charref')
     m.namespaces.setdefault('mistletoe.core_tokens', {})['_code_matches'] = ('global', 'core_tokens._code_matches')
     m.globals.setdefault('INLINE_PHASE', INT)
-    SORTED = 'forall(lambda i: result[i].start <= result[i + 1].start, 0, len(result) - 1)'
+    SORTED = 'forall(lambda i, j: implies(i <= j, result[i].start <= result[j].start), 0, len(result), 0, len(result))'
     m.add(Contract(MOD + ':find_tokens', [('string', STR), ('token_types', TList(SPANCLS)), ('fallback_token', SPANCLS)],
                    returns=TList(PT), trusted=True, may_raise=['CustomTokenError'],
                    ensures=[SORTED,
                             'forall(lambda i: PT_OK(result[i]) and result[i].rank == i and len(result[i].children) == 0 '
                             'and result[i].end <= len(string), 0, len(result))',
-                            'ALL_KIDS_OK()', 'RANKED()'],
+                            'ALL_KIDS_OK()', 'RANKED()',
+                            "forall_ref('ParseToken', lambda p: len(p.children) == 0)"],
                    modifies=['G:core_tokens._code_matches', 'F:ParseToken.children'],
                    note='candidate collection: sorted() is stable (A8); match offsets of the (assumed) finder protocol '
-                        'lie within the string; rank is the ghost position in the sorted list'))
+                        'lie within the string; rank is the ghost position in the sorted list. Quantification over all '
+                        'ParseToken references is read over the candidates of the current call (older ParseToken objects '
+                        'are unreachable garbage)'))
     m.add(Contract(MOD + ':make_tokens', [('tokens', TList(PT)), ('start', INT), ('end', INT), ('string', STR),
                                           ('fallback_token', SPANCLS)], returns=TList(SPT), trusted=True,
                    may_raise=['CustomTokenError'], modifies=['G:INLINE_PHASE'],
@@ -215,3 +218,26 @@ def build3(m):
                         'and string == self.string', 'C16')]},
                    modifies=['G:INLINE_PHASE', 'N:Token.children'], allow_exc=['CustomTokenError'],
                    prop=['C16']))
+
+
+def build4(m):
+    """tokenize: the candidate buffer stays sorted and disjoint (C16)."""
+    SPT = TRef('Token')
+    BUF_OK = ('forall(lambda i: PT_OK(token_buffer[i]) and token_buffer[i].end <= len(string), 0, len(token_buffer)) and '
+              'forall(lambda i: token_buffer[i].end <= token_buffer[i + 1].start, 0, len(token_buffer) - 1)')
+    m.add(Contract(MOD + ':tokenize#buffer', [('string', STR), ('token_types', TList(SPANCLS))], returns=TList(SPT),
+                   requires=['len(token_types) >= 1'],
+                   modifies=['G:html._charref', 'G:core_tokens._code_matches', 'G:INLINE_PHASE', 'F:ParseToken.children'],
+                   allow_exc=['CustomTokenError'],
+                   body_types={'token_buffer': TList(PT)},
+                   loops={0: Loop(invariant=[
+                       'ALL_KIDS_OK()', 'RANKED()',
+                       '0 <= prev.rank', 'prev.rank <= _k0', 'tokens[prev.rank] == prev',
+                       # every child so far is one of the candidates already visited
+                       "forall_ref('ParseToken', lambda p: forall(lambda i: p.children[i].rank <= _k0 and "
+                       "p.children[i].start <= tokens[_k0].start, 0, len(p.children)))",
+                       BUF_OK,
+                       'forall(lambda i: token_buffer[i].end <= prev.start, 0, len(token_buffer))',
+                   ])},
+                   prop=['C16'],
+                   note='sortedness / rank facts about `tokens` come from the trusted find_tokens contract'))
